@@ -203,6 +203,13 @@ func simplifyList(w *Workload, c any) []func() any {
 			})
 		}
 	}
+	if lc.Passes != 0 {
+		out = append(out, func() any {
+			n := cloneCase(w, lc).(*ListCase)
+			n.Passes = 0
+			return n
+		})
+	}
 	return out
 }
 
